@@ -104,6 +104,19 @@ impl Ws {
         self.root = id;
     }
 
+    /// An edit that keeps the current root (`set_file_content` then re-select the root).
+    pub fn edit(&mut self, path: &str, text: &str) {
+        self.fs.set(path, text);
+        let id = self.fs.id_of(path);
+        self.host.set_file_content(id, Arc::from(text));
+        let root = self.root;
+        self.host.set_root_file(&mut self.fs, root);
+    }
+
+    pub fn root_path(&self) -> String {
+        self.fs.path_of(self.root)
+    }
+
     pub fn analysis(&self) -> Analysis {
         self.host.analysis()
     }
